@@ -37,11 +37,39 @@ theorem sha1Size_eq : Facts.C14.sha1Size = 20 := rfl
 
 theorem zeroIV_length : zeroIV.length = 32 := by simp [zeroIV]
 
+/-! ## the interpreted operand facts evaluate to the explicit construction -/
+
+/-- With the operands regenerated from the current source, `keyAesEncrypted` is
+`temp_key_xor ++ aes_encrypted` of the specification. -/
+theorem keyAesEncrypted_unfold (P : Prims) (dwp tk : Bytes) :
+    keyAesEncrypted P dwp tk =
+      Ige.xorB tk (P.sha256 (Ige.enc (P.aesEnc tk) zeroIV (dwp.reverse ++ P.sha256 (tk ++ dwp)))) ++
+        Ige.enc (P.aesEnc tk) zeroIV (dwp.reverse ++ P.sha256 (tk ++ dwp)) := by
+  rfl
+
+theorem decodeRsaPad_unfold (P : Prims) (Q : NumPrims) (key : PrivKey) (data : Bytes) :
+    decodeRsaPad P Q key data =
+      match rsaDecrypt Q key data rsaLen with
+      | none => .error .invalid
+      | some encryptedData =>
+        let tempKeyXor := encryptedData.take 32
+        let aesEncrypted := encryptedData.drop 32
+        let tempKey := Ige.xorB tempKeyXor (P.sha256 aesEncrypted)
+        let dataWithHash := Ige.dec (P.aesDec tempKey) zeroIV aesEncrypted
+        let dataWithPadding := (dataWithHash.take 192).reverse
+        let hash := dataWithHash.drop 192
+        if hash = P.sha256 (tempKey ++ dataWithPadding) then .ok dataWithPadding else .error .mismatch := by
+  unfold decodeRsaPad
+  cases rsaDecrypt Q key data rsaLen with
+  | none => rfl
+  | some e =>
+    rfl
+
 /-! ## one accepted temp key -/
 
 theorem keyAesEncrypted_length (P : Prims) (hP : LawfulPrims P) (dwp tk : Bytes)
     (hd : dwp.length = 192) (ht : tk.length = 32) : (keyAesEncrypted P dwp tk).length = 256 := by
-  unfold keyAesEncrypted
+  rw [keyAesEncrypted_unfold]
   have hdwh : (dwp.reverse ++ P.sha256 (tk ++ dwp)).length = 224 := by
     simp [hP.sha256_len, hd]
   simp only [List.length_append, Ige.xorB_length, ht, hP.sha256_len]
@@ -71,20 +99,20 @@ theorem decode_keyAesEncrypted (P : Prims) (hP : LawfulPrims P) (Q : NumPrims) (
     (dwp tk : Bytes) (hd : dwp.length = 192) (ht : tk.length = 32)
     (hlt : beNat (keyAesEncrypted P dwp tk) < pub.n) :
     decodeRsaPad P Q priv (rsaEncrypt Q pub (keyAesEncrypted P dwp tk)) = .ok dwp := by
-  unfold decodeRsaPad
+  rw [decodeRsaPad_unfold]
   rw [rsaDecrypt_rsaEncrypt Q hQ pub priv hn rsaLen hN hrsa _
     (keyAesEncrypted_length P hP dwp tk hd ht) hlt]
   simp only
-  unfold keyAesEncrypted
+  rw [keyAesEncrypted_unfold]
   have hdwh : (dwp.reverse ++ P.sha256 (tk ++ dwp)).length = 224 := by
     simp [hP.sha256_len, hd]
   have hx : (Ige.xorB tk (P.sha256 (Ige.enc (P.aesEnc tk) zeroIV (dwp.reverse ++ P.sha256 (tk ++ dwp))))).length
-      = tempKeySize := by
+      = 32 := by
     rw [Ige.xorB_length, ht, hP.sha256_len]; rfl
   rw [take_append_len _ _ _ hx, drop_append_len _ _ _ hx]
   rw [Ige.xorB_cancel _ _ (by rw [ht, hP.sha256_len])]
   rw [Ige.dec_enc _ _ (Ige.Inv.ofPrims P hP tk) zeroIV _ zeroIV_length (by omega)]
-  have hr : dwp.reverse.length = dataWithPaddingLength := by simp [hd, dataWithPaddingLength_eq]
+  have hr : dwp.reverse.length = 192 := by simp [hd]
   rw [take_append_len _ _ _ hr, drop_append_len _ _ _ hr, List.reverse_reverse]
   simp
 
@@ -111,7 +139,8 @@ theorem rsaPadLoop_ok (P : Prims) (Q : NumPrims) (key : PubKey) (dwp : Bytes) (f
 /-! ## implementation = specification text -/
 
 theorem keyAesEncrypted_eq_spec (P : Prims) (dwp tk : Bytes) :
-    keyAesEncrypted P dwp tk = Spec.keyAesEncrypted P dwp tk := rfl
+    keyAesEncrypted P dwp tk = Spec.keyAesEncrypted P dwp tk := by
+  rw [keyAesEncrypted_unfold]; rfl
 
 theorem rsaPadLoop_eq_spec (P : Prims) (Q : NumPrims) (hQ : LawfulNum Q) (key : PubKey) (dwp : Bytes)
     (k fuel : Nat) (tape : Bytes) (hk : tape.length = 32 * k) (hf : k ≤ fuel) :
